@@ -252,7 +252,11 @@ pub fn vec_op<'b, P: Pair>(ctx: &mut Ctx, bump: &'b Bump, v: &mut VSlot<'b, P::A
             // a zero-sized element type legitimately loops for the whole count: keep those small
             let n = if a >= 250 && std::mem::size_of::<P::A>() > 0 { usize::MAX - (a as usize - 250) } else { (b as usize) % (len + 20) };
             let x = ctx.next_val(c);
-            ctx.both(&format!("resize({n}) on len {len}"), || s.resize(n, P::A::make(x)), || t.resize(n, P::B::make(x)));
+            // sometimes the element's Clone panics part-way: the vector must be left like std's
+            let bomb = if c & 0xC0 == 0xC0 && n < 1000 { 1 + (c as u32 & 3) } else { 0 };
+            arm_clone_bombs(bomb);
+            ctx.both(&format!("resize({n}) on len {len}{}", if bomb > 0 { format!(" with Clone panicking at call {bomb}") } else { String::new() }), || s.resize(n, P::A::make(x)), || t.resize(n, P::B::make(x)));
+            arm_clone_bombs(0);
         }
         8 => {
             let k = (a % 12) as usize;
@@ -283,7 +287,10 @@ pub fn vec_op<'b, P: Pair>(ctx: &mut Ctx, bump: &'b Bump, v: &mut VSlot<'b, P::A
             let k = (a % 12) as usize;
             let src_s: Vec<P::A> = (0..k).map(|j| P::A::make((c as u32 + j as u32) % 12)).collect();
             let src_t: Vec<P::B> = (0..k).map(|j| P::B::make((c as u32 + j as u32) % 12)).collect();
+            let bomb = if b & 0xC0 == 0xC0 { 1 + (b as u32 & 7) } else { 0 };
+            arm_clone_bombs(bomb);
             ctx.both("extend_from_slice", || s.extend_from_slice(&src_s), || t.extend_from_slice(&src_t));
+            arm_clone_bombs(0);
         }
         11 => {
             let at = idx_arg(ctx, a, b, len);
